@@ -138,6 +138,7 @@ class Expander:
         self.repo, self.known, self.max_depth = repo, known, max_depth
         self.counter = 0
         self.inlined: list = []  # (caller qual, callee qual, mode)
+        self.failed: list = []   # (caller qual, callee qual): unknown helper whose call could not be expanded
         self._attr_types_cache = {}
 
     # -- callee resolution ------------------------------------------------------------------------------------------
@@ -332,6 +333,7 @@ class Expander:
                         pass
             if not done:
                 call._no_inline = True
+                self.failed.append((qual, cq))
         return pre, s, changed
 
     def _inside_comprehension(self, s, call):
@@ -450,6 +452,7 @@ def expand_repo(repo, known: set | None = None):
             ex.expand_function(fn, mi, cq, q)
         except RecursionError:
             continue
+    repo.expand_failed = list(ex.failed)
     return ex.inlined
 
 
